@@ -110,7 +110,7 @@ theorem hinv_hia {cfg : Cfg} {vs : List View} {H H' : HState} (hinv : HInv cfg v
   simp only at hP hG e1 e4 e6
   refine ⟨?_, ?_, e5, by rw [e6]; exact hinv.fromSrc, ?_, ?_⟩
   · rw [e1, List.length_set]; exact hinv.alen
-  · rw [e3, executeGlobals_length d.key cfg.globals H.globals G hinv.glen.symm hG]
+  · rw [e3, executeGlobals_length_g d.key cfg.globals H.globals G hinv.glen.symm hG]
   · intro e he
     rw [e2] at he
     rcases activate_mem d.constraints P e he with h1 | ⟨c, hc, hk⟩
@@ -127,7 +127,7 @@ theorem memrel_other_assign {cfg : Cfg} {vs : List View} (wf : GroupWF cfg vs) {
     (hok : assignValue H i d value b = .ok H')
     {w : View} (hw : w ∈ vs) (hiw : i ∉ w.ia) {hw' : HState} (hm : MemRel cfg w H hw') :
     MemRel cfg w H' hw' ∧ MemRel cfg w H' { hw' with lastArg := none } := by
-  obtain ⟨st', e1, e2, e3, e4, e5, e6, _⟩ := assignValue_ok hok
+  obtain ⟨st', e1, e2, e3, e4, e5, e6, _⟩ := assignValue_ok_g hok
   have hlast : hw'.lastArg = none := by rw [hm.last, hl]; exact idxOf?_none_of_notmem hiw
   have hargs : hw'.args = pick w.ia H'.args := by
     rw [e1, pick_set_notmem w.ia H.args i st' hiw]; exact hm.args
@@ -143,7 +143,7 @@ theorem memrel_other_assign {cfg : Cfg} {vs : List View} (wf : GroupWF cfg vs) {
 theorem hinv_assign {cfg : Cfg} {vs : List View} {H H' : HState} (hinv : HInv cfg vs H)
     {i : Nat} {d : ArgDef} {value : Word} {b : Bool} {v : View} (hv : v ∈ vs) (hiv : i ∈ v.ia)
     (hd : cfg.args[i]? = some d) (hok : assignValue H i d value b = .ok H') : HInv cfg vs H' := by
-  obtain ⟨st', e1, e2, e3, e4, e5, e6, _⟩ := assignValue_ok hok
+  obtain ⟨st', e1, e2, e3, e4, e5, e6, _⟩ := assignValue_ok_g hok
   refine ⟨?_, by rw [e3]; exact hinv.glen, by rw [e5]; exact hinv.inverted, by rw [e6]; exact hinv.fromSrc, ?_, ?_⟩
   · rw [e1, List.length_set]; exact hinv.alen
   · intro e he
